@@ -130,6 +130,35 @@ pub fn tap(buffer: &[u8], locator: &Locator) -> TapDecision {
   if captured {
     return TapDecision::Swallow;
   }
+  // per-domain policy (C07: several live cases at once, each in its own domain)
+  if DOMAIN_FAULTS_ON.load(Ordering::Relaxed) > 0 {
+    let port = match locator {
+      Locator::UdpV4(a) => Some(a.port()),
+      Locator::UdpV6(a) => Some(a.port()),
+      _ => None,
+    };
+    if let Some(port) = port {
+      if port >= 7400 {
+        let domain = usize::from((port - 7400) / 250);
+        let packed = DOMAIN_FAULTS[domain.min(255)].load(Ordering::Relaxed);
+        if packed != 0 {
+          let loss = packed & 0xff;
+          let dup = (packed >> 8) & 0xff;
+          let seed = packed >> 16;
+          let n = FAULT_COUNTER.fetch_add(1, Ordering::Relaxed);
+          let r = splitmix(n ^ seed) & 0xff;
+          if r < loss {
+            FAULT_DROPPED.fetch_add(1, Ordering::Relaxed);
+            return TapDecision::Swallow;
+          }
+          if r < loss + dup {
+            FAULT_DUPLICATED.fetch_add(1, Ordering::Relaxed);
+            return TapDecision::SendTwice;
+          }
+        }
+      }
+    }
+  }
   if FAULT_ON.load(Ordering::Relaxed) {
     let n = FAULT_COUNTER.fetch_add(1, Ordering::Relaxed);
     let mut h = n ^ FAULT_SEED.load(Ordering::Relaxed);
@@ -151,6 +180,38 @@ pub fn tap(buffer: &[u8], locator: &Locator) -> TapDecision {
     }
   }
   TapDecision::Send
+}
+
+fn splitmix(mut h: u64) -> u64 {
+  h = h.wrapping_add(0x9e3779b97f4a7c15);
+  h = (h ^ (h >> 30)).wrapping_mul(0xbf58476d1ce4e5b9);
+  h = (h ^ (h >> 27)).wrapping_mul(0x94d049bb133111eb);
+  h ^ (h >> 31)
+}
+
+static DOMAIN_FAULTS_ON: AtomicU64 = AtomicU64::new(0);
+#[allow(clippy::declare_interior_mutable_const)]
+const DF_ZERO: AtomicU64 = AtomicU64::new(0);
+static DOMAIN_FAULTS: [AtomicU64; 256] = [DF_ZERO; 256];
+
+/// loss / duplication per 256 datagrams for everything sent to ports of `domain`
+/// (0, 0 switches it off)
+pub fn domain_fault_policy(domain: u16, loss_per_256: u64, dup_per_256: u64, seed: u64) {
+  let packed = if loss_per_256 == 0 && dup_per_256 == 0 {
+    0
+  } else {
+    (loss_per_256 & 0xff) | ((dup_per_256 & 0xff) << 8) | (seed << 16)
+  };
+  let old = DOMAIN_FAULTS[usize::from(domain).min(255)].swap(packed, Ordering::Relaxed);
+  match (old != 0, packed != 0) {
+    (false, true) => {
+      DOMAIN_FAULTS_ON.fetch_add(1, Ordering::Relaxed);
+    }
+    (true, false) => {
+      DOMAIN_FAULTS_ON.fetch_sub(1, Ordering::Relaxed);
+    }
+    _ => {}
+  }
 }
 
 pub fn capture_start() {
@@ -306,4 +367,45 @@ pub fn yield_install(f: Box<dyn Fn(u32)>) {
 
 pub fn yield_uninstall() {
   YIELD_CB.with(|cb| *cb.borrow_mut() = None);
+}
+
+// ---------------------------------------------------------------- optional logging (debugging aid)
+
+struct StderrLogger;
+impl log::Log for StderrLogger {
+  fn enabled(&self, _m: &log::Metadata) -> bool {
+    true
+  }
+  fn log(&self, r: &log::Record) {
+    let filter = std::env::var("VERIF_LOG_FILTER").unwrap_or_default();
+    let line = format!("{}", r.args());
+    if filter.is_empty() || filter.split(',').any(|f| r.target().contains(f) || line.contains(f)) {
+      eprintln!(
+        "[{:?}] {} {}: {}",
+        std::thread::current().name().unwrap_or("?"),
+        r.level(),
+        r.target(),
+        line.chars().take(400).collect::<String>()
+      );
+    }
+  }
+  fn flush(&self) {}
+}
+static LOGGER: StderrLogger = StderrLogger;
+
+/// VERIF_LOG=info|debug|trace switches on RustDDS's own log output on stderr
+pub fn init_logging_from_env() {
+  static ONCE: std::sync::Once = std::sync::Once::new();
+  ONCE.call_once(|| {
+    if let Ok(l) = std::env::var("VERIF_LOG") {
+      let lvl = match l.as_str() {
+        "trace" => log::LevelFilter::Trace,
+        "debug" => log::LevelFilter::Debug,
+        "warn" => log::LevelFilter::Warn,
+        _ => log::LevelFilter::Info,
+      };
+      let _ = log::set_logger(&LOGGER);
+      log::set_max_level(lvl);
+    }
+  });
 }
